@@ -202,8 +202,34 @@ def _loop_solver(H, case, screening, max_iter):
 def body_loop(H, case):
     dev, solver, tol, ns, ne, zed, mu0 = _loop_solver(H, case, True, case.max_iter)
     calls = []
+    obs = []  # per iteration: the observables the (stubbed) Poisson stage returned
+    eul = []  # per iteration: what the (stubbed) Euler stage returned
+
+    def fake_euler(step, psi, abs_sq_psi, mu, epsilon, dt):
+        k = len(eul)
+        if H.mode == "sym":
+            p = H.array([H.cplx(f"psi_it{k}_{i}", lo=-1.0, hi=1.0) for i in range(ns)])
+        else:
+            p = np.array([H.cplx(f"psi_it{k}_{i}", lo=-1.0, hi=1.0) for i in range(ns)], dtype=complex)
+        eul.append(p)
+        return p, abs_sq_psi, dt
+
+    def fake_observables(p, dA_dt):
+        k = len(obs)
+        vals = [H.real(f"mu_it{k}_{i}", lo=-1.0, hi=1.0) for i in range(ns)]
+        m = H.array(vals) if H.mode == "sym" else np.array(vals)
+        js = [H.real(f"js_it{k}_{i}", lo=-1.0, hi=1.0) for i in range(ne)]
+        jn = [H.real(f"jn_it{k}_{i}", lo=-1.0, hi=1.0) for i in range(ne)]
+        js, jn = (H.array(js), H.array(jn)) if H.mode == "sym" else (np.array(js), np.array(jn))
+        obs.append((p, m, js, jn))
+        return m, js, jn
+
+    solver.adaptive_euler_step = fake_euler
+    solver.solve_for_observables = fake_observables
+    seen_J = []
 
     def fake_induced(current_density, A_induced_vals, velocity):
+        seen_J.append(current_density)
         k = len(calls)
         if k > case.max_iter + 2:
             from symx.core import UnwindBound
@@ -242,6 +268,20 @@ def body_loop(H, case):
         for c in range(2):
             H.prove_eq(f"returned A_induced is the last iterate [{i},{c}]", K.at(res.A_induced, i, c), K.at(calls[-1][0], i, c))
     H.prove_eq("recorded screening_iterations = number of iterations", K.at(rs.values["screening_iterations"], 0, rs.step), n)
+    # the stored state is the one of the converged iteration: the stored currents are those the stored
+    # potential was computed from, psi / mu belong to the same iteration
+    H.prove("one Euler stage and one Poisson stage per Polyak iteration", len(eul) == n and len(obs) == n)
+    if len(eul) == n and len(obs) == n:
+        p_last, m_last, js_last, jn_last = obs[-1]
+        for i in range(ne):
+            H.prove_eq(f"stored supercurrent [{i}] is the one of the converged iteration", K.at(res.supercurrent, i), K.at(js_last, i))
+            H.prove_eq(f"stored normal current [{i}] is the one of the converged iteration", K.at(res.normal_current, i), K.at(jn_last, i))
+            H.prove_eq(f"the stored potential was computed from the stored sheet current [{i}]", K.at(seen_J[-1], i), K.at(js_last, i) + K.at(jn_last, i))
+        for i in range(ns):
+            H.prove_eq(f"stored mu [{i}] is the one of the converged iteration", K.at(res.mu, i), K.at(m_last, i))
+            H.prove_eq(f"stored psi [{i}] is the one of the converged iteration (re)", K.re(K.at(res.psi, i)), K.re(K.at(eul[-1], i)))
+            H.prove_eq(f"stored psi [{i}] is the one of the converged iteration (im)", K.im(K.at(res.psi, i)), K.im(K.at(eul[-1], i)))
+            H.prove_eq(f"the Poisson stage of the converged iteration saw its psi [{i}] (re)", K.re(K.at(p_last, i)), K.re(K.at(eul[-1], i)))
 
 
 def body_off(H, case):
